@@ -35,6 +35,8 @@ type vconn struct {
 	onRead    func(c *vconn) // called at the moment the server asks the transport for bytes
 	readsAtEOF int
 	yield      bool // every Read is a scheduling point (concurrency harnesses)
+	blockAtEnd bool // an idle client: Read at the end of the script blocks until the connection is closed
+	closedFlag bool
 }
 
 func newVconn(in []byte) *vconn {
@@ -60,6 +62,10 @@ func (c *vconn) Read(p []byte) (int, error) {
 		c.onRead(c)
 	}
 	lim := c.limit()
+	if c.pos >= lim && c.blockAtEnd {
+		vsymAwait(&c.closedFlag)
+		return 0, errVconnClosed
+	}
 	if c.pos >= lim {
 		c.readsAtEOF++
 		if c.reset && c.cut >= 0 {
@@ -105,6 +111,9 @@ func (c *vconn) Write(p []byte) (int, error) {
 func (c *vconn) Close() error {
 	c.closes++
 	c.closed = true
+	if c.blockAtEnd {
+		vsymSignal(&c.closedFlag)
+	}
 	return nil
 }
 func (c *vconn) LocalAddr() net.Addr                { return vaddr{} }
